@@ -3,6 +3,18 @@
 import json, os, random, subprocess
 from . import common as c, gen, props as P
 
+def explored(target, tier):
+    """cases retained by the coverage-guided search on the current tree (vlib/explore.py)"""
+    if os.environ.get('VERIF_NO_EXPLORE'): return []
+    from . import explore
+    return explore.cases(target, tier)[0]
+
+def _hist(cases, i):
+    if cases[i][0] not in 'LC': return [cases[i]]
+    j = i
+    while j > 0 and not cases[j].startswith('H'): j -= 1
+    return cases[j:i + 1]
+
 def _known(pid):
     return [k for k in c.known_findings()['known'] if k['property'] == pid]
 
@@ -29,7 +41,7 @@ def three_way(pid, quirk, cases, proj, what):
             known[listed[0]['id']] = listed[0]['what']
             continue
         if len(viol) < 20:
-            viol.append({'batch': what, 'build': ['std', 'debug'], 'cases': [case] if case[0] not in 'LC' else ['H', case],
+            viol.append({'batch': what, 'build': ['std', 'debug'], 'cases': _hist(cases, i),
                          'impl': a[:3000], 'model': b[:3000], 'model_repaired': f[:3000],
                          'diffs': [list(x) for x in (d_asis or d_fixed)[:10]], 'proj': sorted(proj), 'quirk': quirk})
     k = next((i for i, x in enumerate(cases) if not x.startswith('H')), 0)
@@ -38,7 +50,15 @@ def three_way(pid, quirk, cases, proj, what):
             'samples': [{'batch': what, 'case': cases[k][:300]}]}
 
 def c16(tier, rng, seed):
-    return three_way('C16', 'q16', P.radio_cases(rng, tier), {'C16'}, 'radio')
+    r = three_way('C16', 'q16', P.radio_cases(rng, tier), {'C16'}, 'radio')
+    ex = explored('msg', tier)
+    if ex: r = merge3(r, three_way('C16', 'q16', ex, {'C16'}, 'explored-msg'))
+    return r
+
+def merge3(r, r2):
+    r['violations'] += r2['violations']; r['evaluations'] += r2['evaluations']; r['nontrivial'] |= r2['nontrivial']
+    r['known'].update(r2['known']); r['batches'].update(r2['batches']); r['samples'] += r2['samples']
+    return r
 
 def merge(r, r2):
     r['violations'] += r2['violations']; r['evaluations'] += r2['evaluations']; r['nontrivial'] |= r2['nontrivial']
@@ -65,6 +85,8 @@ def c19(tier, rng, seed):
     r = three_way('C19', 'q19', P.sentence_field_cases(rng, tier), {'C19'}, 'sentence-fields')
     merge(r, three_way('C19', 'q19', P.message_type_cases(rng, tier), {'C19'}, 'first-byte x length x fill x shape'))
     merge(r, swept_three_way('C19', 'q19', P.message_type_sweeps(rng, tier), {'C19'}, 'first-byte-sweeps'))
+    ex = explored('hist', tier)
+    if ex: merge(r, three_way('C19', 'q19', ex, {'C19'}, 'explored-hist'))
     return r
 
 def replay_three_way(rp):
@@ -122,6 +144,7 @@ def c17(tier, rng, seed):
         while ia < len(a) or ib < len(b):
             if ib >= len(b) or (ia < len(a) and rng.random() < 0.5): inter.append(P.L(0, 1, a[ia])); ia += 1
             else: inter.append(P.L(1, 1, b[ib])); ib += 1
+    inter += explored('hist', tier)
     allc = cases + inter
     io = c.run_impl(allc, 'std', 'debug'); mo = c.run_model(allc, 'std', 'asis')
     def strip(x): return c.split_line(x)[0]
@@ -263,6 +286,18 @@ def cli_check_one(exe, stream, hx, model_line, harness_line):
 def c20(tier, rng, seed):
     exe = c.build_cli()
     streams = P.cli_streams(rng, tier)
+    # histories retained by the coverage-guided search, as streams (one line each, newline-terminated)
+    ex, cur = explored('hist', tier), None
+    exs = []
+    for x in ex + ['H']:
+        if x.startswith('H'):
+            if cur: exs.append(b'\n'.join(cur) + b'\n')
+            cur = []
+        else:
+            hx = x.split(' ')[-1]
+            cur.append(bytes.fromhex(hx) if hx != '-' else b'')
+    step = max(1, len(exs) // (400 if tier == 'quick' else 4000))
+    streams += exs[::step]
     cases = ['X ' + c.hexs(s) for s in streams]
     mo = c.run_model(cases, 'std', 'asis')
     ho = c.run_impl(cases, 'std', 'debug')
